@@ -106,7 +106,7 @@ class LoopExpression(Expression):
     def _to_int(self, obj: object, *, token: Token) -> int:
         try:
             return to_int(obj)
-        except (ValueError, TypeError) as err:
+        except (ValueError, TypeError, OverflowError) as err:
             raise LiquidTypeError(
                 f"expected an integer, found {obj.__class__.__name__}",
                 token=token,
